@@ -141,7 +141,14 @@ def _report(pid, prop, tier, seed, results, notes, t0, tree):
                 r["reason"] = "helper obligation failed (not derived from the property statement): " + r["reason"]
                 undecided.append(r)
                 continue
-            k = next((k for k in known if k["obligation"] == r["id"]), None)
+            def _same(k, r=r):
+                if k["obligation"] != r["id"]:
+                    return False
+                if not k.get("failing"):
+                    return True
+                fc = r.get("failed_checks") or []
+                return bool(fc) and all(k["failing"] in (c.get("description", "") + " " + c.get("location", "")) for c in fc)
+            k = next((k for k in known if _same(k)), None)
             if k:
                 known_hits.append((r, k))
             else:
